@@ -69,10 +69,16 @@ func (a *application) start(mode gen.ApplicationMode, options gen.ApplicationOpt
 
 		pid, err := a.node.spawn(item.Factory, opts)
 		if err != nil {
-			for _, pid := range a.members() {
-				a.node.Kill(pid)
+			// roll back: the members started so far leave the group first, so that
+			// their termination is not taken for the end of a running application
+			started := a.members()
+			for _, pid := range started {
+				a.group.Delete(pid)
 			}
 			atomic.StoreInt32(&a.state, int32(gen.ApplicationStateLoaded))
+			for _, pid := range started {
+				a.node.Kill(pid)
+			}
 			return err
 		}
 
